@@ -8,6 +8,8 @@
 int gh_os_deleted, gh_os_emptied;     /* calls of _OS_delete_function / _OS_empty_function */
 os_t *gh_os;                          /* the object stack they must be applied to */
 int gh_emptied_symbs, gh_emptied_tsets, gh_emptied_rules;
+/* as in the shipped build, assertions are off in yaep.c (see symtab.spec.c) */
+#define NDEBUG 1
 #include "yaep.c"
 #include "alloc_model.h"
 
